@@ -1,7 +1,7 @@
 import asyncio
 import logging
 from asyncio.streams import StreamReader, StreamWriter
-from typing import AsyncIterable, Awaitable, Callable, List, Optional
+from typing import AsyncIterable, Awaitable, Callable, Optional, Set
 
 from tickit.adapters.tcp import CommandAdapter
 from tickit.core.adapter import AdapterIo, RaiseInterrupt
@@ -63,9 +63,15 @@ class TcpIo(AdapterIo[CommandAdapter]):
                 asynchronous message handler which returns an asynchronous iterable of
                 replies.
         """
-        tasks: List[asyncio.Task] = list()
-
         async def handle(reader: StreamReader, writer: StreamWriter) -> None:
+            # Reply tasks of this connection which have not finished yet.
+            tasks: Set[asyncio.Task] = set()
+
+            def spawn(replies: AsyncIterable[Optional[bytes]]) -> None:
+                task = asyncio.create_task(reply(replies))
+                tasks.add(task)
+                task.add_done_callback(tasks.discard)
+
             async def reply(replies: AsyncIterable[Optional[bytes]]) -> None:
                 async for reply in replies:
                     if reply is None:
@@ -76,7 +82,7 @@ class TcpIo(AdapterIo[CommandAdapter]):
                         break
                     await writer.drain()
 
-            tasks.append(asyncio.create_task(reply(on_connect())))
+            spawn(on_connect())
 
             while True:
                 data: bytes = await reader.read(1024)
@@ -85,17 +91,14 @@ class TcpIo(AdapterIo[CommandAdapter]):
                 addr = writer.get_extra_info("peername")
 
                 LOGGER.debug(f"Received {data!r} from {addr}")
-                tasks.append(
-                    asyncio.create_task(
-                        reply(
-                            await handler(
-                                data,
-                                raise_interrupt,
-                            )
-                        )
+                spawn(
+                    await handler(
+                        data,
+                        raise_interrupt,
                     )
                 )
 
-            await asyncio.wait(tasks)
+            if tasks:
+                await asyncio.wait(tasks)
 
         return handle
